@@ -161,6 +161,12 @@ func newC08World() *c08World {
 // expectedEvents derives the reference event list of one accepted operation from the model before and after it.
 func (w *c08World) expectedEvents(info kOpInfo, pre, post *kModel) []string {
 	var out []string
+	if info.kind == "deleteIfPresent" {
+		if pre.people[info.id] == nil {
+			return nil // the store call failed (not found) and the caller went on: nothing was deleted
+		}
+		info.kind = "delete"
+	}
 	add := func(store, typ, id, state string) {
 		for _, style := range c08Styles {
 			st := state
@@ -324,7 +330,7 @@ func c08State(rep *report.Report, w *c08World, ops []explore.Op, bodies [][]int,
 			}
 			want = append(want, w.expectedEvents(w.k.opInfo[o], pre, m)...)
 			// deleting an entity without extended data: whether the extended child store sees an event is not specified
-			if info := w.k.opInfo[o]; info.kind == "delete" && (info.via == "people" || info.via == "mgr" || info.via == "prof") {
+			if info := w.k.opInfo[o]; (info.kind == "delete" || info.kind == "deleteIfPresent") && (info.via == "people" || info.via == "mgr" || info.via == "prof") {
 				if cur := pre.people[info.id]; cur != nil && !cur.prof {
 					optional["prof|deleted|"+info.id] = true
 				}
